@@ -161,14 +161,70 @@ func (w *c12World) receivedDue(h *channeldb.HTLC) bool {
 		w.known(h.RHash[0])
 }
 
+// c12Family: a family of presence shapes. A shape says how many offered and
+// received HTLCs each of the three commitments carries (0..n each) and whether
+// a pending remote commitment exists at all (it may exist and be empty).
+type c12Family struct {
+	n       int  // slots per (commitment, direction)
+	maxFill int  // at most this many HTLC slots filled in total
+	needTwo bool // only shapes with some (commitment, direction) holding 2
+	parts   int  // number of shards the family is split into
+}
+
+type c12Shape struct {
+	cnt      [3][2]int
+	rpExists bool
+}
+
+// c12PickShape enumerates the family (concretely) and selects one shape by a
+// concrete case split: vChoice("part") x vChoice("shape").
+func c12PickShape(f c12Family) c12Shape {
+	var all []c12Shape
+	total := 1
+	for i := 0; i < 6; i++ {
+		total *= f.n + 1
+	}
+	for v := 0; v < total; v++ {
+		var sh c12Shape
+		x, fill, two := v, 0, false
+		for c := 0; c < 3; c++ {
+			for d := 0; d < 2; d++ {
+				sh.cnt[c][d] = x % (f.n + 1)
+				x /= f.n + 1
+				fill += sh.cnt[c][d]
+				two = two || sh.cnt[c][d] >= 2
+			}
+		}
+		if fill > f.maxFill || (f.needTwo && !two) {
+			continue
+		}
+		sh.rpExists = true
+		all = append(all, sh)
+		if sh.cnt[c12RP][0] == 0 && sh.cnt[c12RP][1] == 0 {
+			sh.rpExists = false
+			all = append(all, sh)
+		}
+	}
+	part := vChoice("part", f.parts)
+	j := vChoice("shape", (len(all)+f.parts-1)/f.parts)
+	i := j*f.parts + part
+	if i >= len(all) {
+		vAssume(false)
+	}
+
+	return all[i]
+}
+
 // c12NewWorld builds the symbolic world. Shape (which slots hold an HTLC,
 // whether a pending remote commitment exists) is a
 // concrete case split (vChoice); indexes, expiries, output indexes (their sign
 // = dust or not), hashes,
 // height, deltas, preimage knowledge, forwarded bits, up time and grace period
 // are symbolic.
-func c12NewWorld(n int) *c12World {
-	w := &c12World{n: n, dom: true}
+func c12NewWorld(f c12Family) *c12World {
+	sh := c12PickShape(f)
+	n := f.n
+	w := &c12World{n: n, dom: true, rpExists: sh.rpExists}
 	w.height = vU32("height")
 	w.inDelta = vU32("inDelta")
 	w.outDelta = vU32("outDelta")
@@ -179,30 +235,12 @@ func c12NewWorld(n int) *c12World {
 	w.fwdMask = vU16("forwardedMask")
 
 	for c := 0; c < 3; c++ {
-		// presence pattern of commitment c: bit (d*n+k) = slot (d,k) holds
-		// an HTLC; for the pending remote commitment the extra value
-		// 1<<(2n) means "there is no pending remote commitment".
-		nPat := 1 << (2 * n)
-		extra := 0
-		if c == c12RP {
-			extra = 1
-		}
-		pat := vChoice("pres"+c12CS[c], nPat+extra)
-		if c == c12RP {
-			w.rpExists = pat != nPat
-			if !w.rpExists {
-				pat = 0
-			}
-		}
 		for d := 0; d < 2; d++ {
 			for k := 0; k < n; k++ {
 				var s c12Slot
-				s.on = (pat>>(d*n+k))&1 == 1
 				// slots of one (commitment, direction) are
-				// interchangeable: fill them from the front.
-				if s.on && k > 0 && !w.slots[c][d][k-1].on {
-					vAssume(false)
-				}
+				// interchangeable: they are filled from the front.
+				s.on = k < sh.cnt[c][d]
 				s.h.Incoming = d == 1
 				s.h.Amt = lnwire.MilliSatoshi(1000)
 				if s.on {
@@ -342,6 +380,7 @@ var c12Up time.Duration
 func vC12TimeSub(t, u time.Time) time.Duration { return c12Up }
 
 func c12Config() {
+	vUnwind(1000) // the concrete shape enumeration loops up to 3^6 times
 	vReplace("(time.Time).Sub", "github.com/lightningnetwork/lnd/contractcourt.vC12TimeSub")
 	if C12_MERGE {
 		vMerge("(*github.com/lightningnetwork/lnd/contractcourt.ChannelArbitrator).shouldGoOnChain")
@@ -368,9 +407,9 @@ func c12Count(m ChainActionMap, a ChainAction, idx uint64, incoming bool) int {
 // c12GoOnChain: no commitment confirmed, a new block arrives (chainTrigger).
 // This is exactly what stateStep(StateDefault) evaluates; a non-empty map is
 // the decision to force close.
-func c12GoOnChain(n int) {
+func c12GoOnChain(f c12Family) {
 	c12Config()
-	w := c12NewWorld(n)
+	w := c12NewWorld(f)
 	c := w.arb
 	vAssume(w.dom)
 
@@ -433,14 +472,24 @@ func c12GoOnChain(n int) {
 	}
 }
 
-func VerifC12GoOnChain()   { c12GoOnChain(1) }
-func VerifC12GoOnChainN2() { c12GoOnChain(2) }
+// quick: one slot per (commitment, direction), at most 3 HTLCs in total.
+// thorough: all shapes with one slot each (up to 6 HTLCs), and two slots per
+// (commitment, direction) with at most C12_N2FILL HTLCs in total.
+var (
+	c12Quick = c12Family{n: 1, maxFill: 3, parts: C12_QPARTS}
+	c12Full1 = c12Family{n: 1, maxFill: 6, parts: C12_TPARTS}
+	c12Two   = c12Family{n: 2, maxFill: C12_N2FILL, needTwo: true, parts: C12_TPARTS}
+)
+
+func VerifC12GoOnChain()     { c12GoOnChain(c12Quick) }
+func VerifC12GoOnChainFull() { c12GoOnChain(c12Full1) }
+func VerifC12GoOnChainN2()   { c12GoOnChain(c12Two) }
 
 // ------------------------------------- (2) disposition once K has confirmed
 
-func c12Confirmed(n int, chainTrig bool) {
+func c12Confirmed(f c12Family, chainTrig bool) {
 	c12Config()
-	w := c12NewWorld(n)
+	w := c12NewWorld(f)
 	c := w.arb
 
 	k := vChoice("confirmed", 3)
@@ -609,10 +658,11 @@ func c12CheckDisposition(w *c12World, k int, actions ChainActionMap) {
 	vAssert(okNoExtra, c12MsgNoExtra)
 }
 
-func VerifC12Confirmed()   { c12Confirmed(1, false) }
-func VerifC12ConfirmedN2() { c12Confirmed(2, false) }
+func VerifC12Confirmed()     { c12Confirmed(c12Quick, false) }
+func VerifC12ConfirmedFull() { c12Confirmed(c12Full1, false) }
+func VerifC12ConfirmedN2()   { c12Confirmed(c12Two, false) }
 
 // VerifC12ConfirmedChainTrigger: the same disposition obligations when the
 // confirmed commit set is evaluated with chainTrigger (restart in
 // StateContractClosed, see NOTES.md).
-func VerifC12ConfirmedChainTrigger() { c12Confirmed(1, true) }
+func VerifC12ConfirmedChainTrigger() { c12Confirmed(c12Quick, true) }
